@@ -324,6 +324,13 @@ func (mc *machine) run(rt *rapid.T, q string, o outcome) {
 		}
 		return
 	}
+	if o.orderDep {
+		// a row is deleted by one referential action and has a referenced key rewritten by
+		// another: the effect on its own children depends on the order of the two - outside
+		// the deterministic domain, not executed
+		mc.st.Class("skipped:order-dependent-actions")
+		rt.Skip()
+	}
 	if kf.Listed(findingSelfScan) {
 		// region of finding C18-selfref-scan-skips-rows, excluded while it is listed: statements
 		// that delete or rewrite two or more rows of a table with a self-referencing constraint
